@@ -2809,7 +2809,10 @@ def run(em, args, write=True):
                 out.append('  %s();' % em.gname(c))
     out.append('}')
     for e in entries:
-        out.append('void __ir2c_entry_%s(void) { __ir2c_global_init(); %s(); }' % (cid(e), em.gname(e)))
+        # an exception that leaves the harness entry would end the native program in std::terminate; in the flag-based
+        # lowering it would silently skip the rest of the harness (vacuous pass), so it is an assertion
+        out.append('void __ir2c_entry_%s(void) { __ir2c_global_init(); %s(); '
+                   '__CPROVER_assert(!__ir2c_exc_pending, "escape: an exception leaves the harness entry uncaught (native: std::terminate)"); }' % (cid(e), em.gname(e)))
     if not write:
         return
     open(args.out, 'w').write('\n'.join(out) + '\n')
